@@ -373,3 +373,31 @@ theorem declFrom_refs_nodup : ∀ (fs : List FileD) (n : Nat), ((declFrom n fs).
 theorem C01_refs_nodup (w : World) : ((declared w).map (·.ref)).Nodup := declFrom_refs_nodup w.files 0
 
 end Pgs.AST
+
+/-! ### the "all messages / all enums" listings list nothing twice -/
+namespace Pgs.AST
+
+theorem allMsgRefs_sublist (fi : Nat) : ∀ (ms : Msgs) (p : List Nat) (tag i : Nat),
+    (allMsgRefs fi p tag i ms).Sublist (msgsF fi p tag i ms).pre := by
+  intro ms
+  induction ms with
+  | nil => intro p tag i; simp [allMsgRefs, msgsF, Forest.pre]
+  | cons h nested rest ih1 ih2 =>
+    intro p tag i
+    by_cases hm : h.mapEntry = true
+    · simp only [allMsgRefs, msgsF, hm, if_true, List.nil_append]
+      exact ih2 _ _ _
+    · have hm' : h.mapEntry = false := by simpa using hm
+      rw [msgsF_pre_cons _ _ _ _ _ _ _ hm']
+      simp only [allMsgRefs, hm', Bool.false_eq_true, if_false, List.cons_append]
+      refine List.Sublist.cons_cons _ (List.Sublist.append ?_ (ih2 _ _ _))
+      unfold msgKids
+      exact List.sublist_append_of_sublist_right (List.sublist_append_of_sublist_left (ih1 _ _ _))
+
+/-- **C01 (all messages, exactly once)**: the transitive listing of ordinary messages below a file
+    names no message twice (and, being a subsequence of the containment pre-order, lists them in
+    declaration order, parents before their nested messages). -/
+theorem C01_allMessages_nodup (fi : Nat) (f : FileD) : (allMsgRefs fi [] 4 0 f.msgs).Nodup :=
+  (allMsgRefs_sublist fi f.msgs [] 4 0).nodup (msgsF_nodup fi f.msgs [] 4 0)
+
+end Pgs.AST
